@@ -67,4 +67,25 @@ theorem unchanged_not_listed (parents : List Tree) (hne : parents ≠ []) (t : T
 example : changed [] [(1, 10), (2, 20)] = [1, 2] := by decide
 example : changed [[(1, 10), (2, 20)], [(1, 10)]] [(1, 10), (2, 20)] = [2] := by decide
 
+/-! ### which files the hook LOOKS AT (D87): the changed ones — or all of them when an attributes file changed -/
+
+/-- `isAttr p`: the path is a .gitattributes file; `all`: every path of the work tree -/
+def looked (isAttr : Nat → Bool) (all : List Nat) (chg : List Nat) : List Nat :=
+  if chg.any isAttr then all else chg
+
+/-- whenever an attributes file is among the changed paths every file is looked at — in particular the files that
+    the new attributes make lockable although they did not change themselves -/
+theorem attrs_change_looks_at_everything (isAttr : Nat → Bool) (all chg : List Nat) (a : Nat) (ha : a ∈ chg)
+    (hattr : isAttr a = true) (f : Nat) (hf : f ∈ all) : f ∈ looked isAttr all chg := by
+  have : chg.any isAttr = true := List.any_eq_true.mpr ⟨a, ha, hattr⟩
+  simp [looked, this, hf]
+
+/-- and nothing that changed is ever left out -/
+theorem changed_is_looked_at (isAttr : Nat → Bool) (all chg : List Nat) (hsub : ∀ p ∈ chg, p ∈ all) (p : Nat) (hp : p ∈ chg) :
+    p ∈ looked isAttr all chg := by
+  unfold looked
+  split
+  · exact hsub p hp
+  · exact hp
+
 end PostCommit
